@@ -33,7 +33,7 @@ ASSUMPTIONS = [
     "failures of begin_read/begin_write (file deleted under the handle) are not among the listed failure sources",
 ]
 REQUIRED = {"mp.sessions": 200, "mp.writer-sessions": 100, "mp.reader-between-writers": 5, "mp.cross-process-adjacent": 50,
-            "seq.sequences": 1000, "mp.schedules-with-racing-creation": 2, "lateopen.schedules": 4, "fail.cases": 30, "fail.fresh-process-acquired": 30}
+            "seq.sequences": 1000, "mp.schedules-with-racing-creation": 2, "lateopen.schedules": 4, "locktimeout.schedules": 2, "fail.cases": 30, "fail.fresh-process-acquired": 30}
 CHUNK_TIMEOUT = 600
 TECHNIQUE = ("runtime monitoring: recorded session-interval histories from real processes + offline checker (mutual exclusion, "
              "conservation, visibility); fault injection at each session step with a fresh-process lock probe")
@@ -61,11 +61,14 @@ def plan(tier, seed):
         specs.append({"kind": "fail", "chunk": i, "of": 8})
     for i in range(4 if tier == "quick" else 16):
         specs.append({"kind": "lateopen", "chunk": i, "timeout": 240})
+    for i in range(2 if tier == "quick" else 8):
+        specs.append({"kind": "locktimeout", "chunk": i, "timeout": 240})
     return specs
 
 
 def run_chunk(spec, ctx):
-    {"mp": run_mp, "seq": run_seq, "fail": run_fail, "lateopen": run_lateopen}[spec["kind"]](spec, ctx)
+    {"mp": run_mp, "seq": run_seq, "fail": run_fail, "lateopen": run_lateopen,
+     "locktimeout": run_locktimeout}[spec["kind"]](spec, ctx)
 
 
 # ------------------------------------------------------------------------------------------------
@@ -289,6 +292,139 @@ def run_lateopen(spec, ctx):
             ctx.violation("lateopen:final-file-differs", case=case, missing=sorted(set(want) - set(got)))
     except ScanError as e:
         ctx.violation("lateopen:final-file-not-a-clean-record-sequence", case=case, err=str(e))
+
+
+# ------------------------------------------------------------------------------------------------
+# locktimeout: sessions that give up waiting (timeout=...) while a writer is inside must not let anybody else in
+
+TIMEOUT_A = LATE_COMMON + r"""
+lib = Collection(path, UkvCollectionBackend, readonly=False, bufsize=%(bufsize)r)
+with lib.writing(timeout=20):
+    lib["a0"] = b"value-of-a0"
+    touch("a_inside")
+    wait_for("release", timeout=90)
+    lib["a1"] = b"value-of-a1"
+    touch("a_leaving")
+print(json.dumps({"ok": True}))
+"""
+
+TIMEOUT_B = LATE_COMMON + r"""
+who = %(who)r
+lib = Collection(path, UkvCollectionBackend, readonly=False, bufsize=0)      # long-lived handle, made before the holder enters
+touch(who + "_ready")
+wait_for("go_" + who, timeout=90)
+entered, err, overlap = False, None, None
+try:
+    with (lib.writing(timeout=%(t)r) if %(write)r else lib.reading(timeout=%(t)r)):
+        entered = True
+        overlap = os.path.exists(os.path.join(root, "a_inside")) and not os.path.exists(os.path.join(root, "a_leaving"))
+        if %(write)r:
+            lib[who + "0"] = b"value-of-" + who.encode() + b"0"
+except TimeoutError as e:
+    err = "TimeoutError"
+except Exception as e:
+    err = type(e).__name__ + ": " + str(e)[:100]
+print(json.dumps({"entered": entered, "err": err, "overlap": overlap}))
+"""
+
+
+def run_locktimeout(spec, ctx):
+    from molli.storage import Collection, UkvCollectionBackend
+    from vmon.models.kvmap import scan, ScanError
+
+    case = ("locktimeout", spec["chunk"])
+    if not ctx.want(case):
+        return
+    rng = ctx.rng(*case)
+    root = ctx.tmp / "lt"
+    root.mkdir()
+    path = root / "lib.ukv"
+    Collection(path, UkvCollectionBackend, readonly=False, overwrite=True)
+    par = {"syspath": [p for p in sys.path if p], "root": str(root), "path": str(path), "bufsize": rng.choice([-1, 0, 4096])}
+    import time
+
+    def wait_file(name, procs, limit=90):
+        t0 = time.time()
+        while not (root / name).exists():
+            if any(q.poll() is not None for q in procs) or time.time() - t0 > limit:
+                return False
+            time.sleep(0.01)
+        return True
+
+    # the waiting parties construct their handles first (a constructor waits for the lock without any timeout)
+    waiting = []
+    for who, write in (("b", True), ("c", rng.random() < 0.7)):
+        q = subprocess.Popen([sys.executable, "-c", TIMEOUT_B % {**par, "who": who, "t": 0.4, "write": write}],
+                             stdout=subprocess.PIPE, stderr=subprocess.PIPE, text=True)
+        waiting.append((who, write, q))
+    mine = Collection(path, UkvCollectionBackend, readonly=False, bufsize=0)
+    if not all(wait_file(w + "_ready", [q]) for w, _, q in waiting):
+        for _, _, q in waiting:
+            q.kill()
+        ctx.inconclusive.append(f"locktimeout {spec['chunk']}: a waiting party did not get ready")
+        return
+    a = subprocess.Popen([sys.executable, "-c", TIMEOUT_A % par], stdout=subprocess.PIPE, stderr=subprocess.PIPE, text=True)
+    if not wait_file("a_inside", [a]):
+        a.kill()
+        for _, _, q in waiting:
+            q.kill()
+        ctx.inconclusive.append(f"locktimeout {spec['chunk']}: holder did not enter its session")
+        return
+    late = []
+    # they give up one after another while A is still inside: two other processes, then a handle of this process
+    for who, write, q in waiting:
+        (root / ("go_" + who)).touch()
+        try:
+            out, err = q.communicate(timeout=120)
+            late.append((who, write, json.loads(out.strip().splitlines()[-1])))
+        except Exception:  # noqa
+            q.kill()
+            ctx.violation("locktimeout:waiting-process-failed", case=case)
+    r = {"entered": False, "err": None, "overlap": None}
+    try:
+        with mine.writing(timeout=0.4):
+            r["entered"] = True
+            r["overlap"] = (root / "a_inside").exists() and not (root / "a_leaving").exists()
+            mine["d0"] = b"value-of-d0"
+    except TimeoutError:
+        r["err"] = "TimeoutError"
+    except Exception as e:  # noqa
+        r["err"] = type(e).__name__ + ": " + str(e)[:100]
+    late.append(("d", True, r))
+    (root / "release").touch()
+    try:
+        out, err = a.communicate(timeout=120)
+    except subprocess.TimeoutExpired:
+        a.kill()
+        ctx.inconclusive.append(f"locktimeout {spec['chunk']}: holder did not finish")
+        return
+    if a.returncode != 0:
+        ctx.violation("locktimeout:holder-session-failed", case=case, stderr=(err or "")[-300:])
+    ctx.count("locktimeout.schedules")
+    entered = [(w, r) for w, _, r in late if r["entered"]]
+    ctx.case(case, dkey=tuple((w, wr, r["entered"]) for w, wr, r in late), nontrivial=True,
+             sample={"waiting_parties": [[w, "writing" if wr else "reading", r["err"] or "entered"] for w, wr, r in late]})
+    for w, wr, r in late:
+        ctx.count("locktimeout.gave-up" if r["err"] == "TimeoutError" else "locktimeout.other-outcome")
+        if r["entered"] and r["overlap"]:
+            ctx.violation(f"locktimeout:{'writer' if wr else 'reader'}-entered-while-another-writer-was-inside", case=case,
+                          party=w, after_timeouts=[x for x, _, y in late if y["err"] == "TimeoutError"])
+        elif r["err"] not in (None, "TimeoutError"):
+            ctx.violation("locktimeout:waiting-session-raises-something-else", case=case, party=w, err=r["err"])
+    # afterwards the lock still works and nothing was lost
+    (root / "go_z").touch()
+    p = subprocess.run([sys.executable, "-c", TIMEOUT_B % {**par, "who": "z", "t": 20, "write": True}], capture_output=True, text=True, timeout=120)
+    want = {"a0": b"value-of-a0", "a1": b"value-of-a1", "z0": b"value-of-z0"}
+    for w, wr, r in late:
+        if r["entered"] and wr:
+            want[w + "0"] = b"value-of-" + w.encode() + b"0"
+    try:
+        _, _, _, recs, _ = scan(path.read_bytes())
+        got = {k.decode(): v for k, v, _ in recs}
+        if got != want:
+            ctx.violation("locktimeout:records-lost-or-altered", case=case, missing=sorted(set(want) - set(got)), extra=sorted(set(got) - set(want)))
+    except ScanError as e:
+        ctx.violation("locktimeout:final-file-not-a-clean-record-sequence", case=case, err=str(e))
 
 
 # ------------------------------------------------------------------------------------------------
